@@ -853,9 +853,11 @@ def generate(ck):
     GEN_STATS.clear()
     del FILE_REFS[:]
     quick = ck.tier == 'quick'
+    # quick: sized so that the whole check stays well under a minute on an unloaded machine (fresh clones also pay the
+    # one-off build of the sanitizer objects); the bulk of the sampling is in the thorough tier
     n_tables = 12 if quick else 60
-    n_wf = 4000 if quick else 40000
-    n_host = 8000 if quick else 90000
+    n_wf = 2500 if quick else 50000
+    n_host = 4000 if quick else 100000
 
     lines = []
     meta = {}     # cid -> ('wf', tid, exp) | ('host', tid) | ('corpus', file)
@@ -932,7 +934,7 @@ def generate(ck):
 def run(ck):
     if os.environ.get('VERIF_COVERAGE'):
         return coverage_run(ck)
-    N_THEOREMS = 67
+    N_THEOREMS = 69
     # 1. regenerate the source-derived definitions (byte conditions, int conversion, statement skeletons, value kinds)
     gen = os.path.join(LEAN, 'MpVerif', 'Gen', 'C11Tok.lean')
     rc, out, err = sh([sys.executable, os.path.join(VERIF, 'translators', 'gen_c11.py'), REPO, gen, os.path.join(BUILD, 'tr')], timeout=600)
